@@ -300,5 +300,43 @@ theorem parse_bare (lower : Str → Str) (ci : Bool) (file : Bytes) (start : Nat
   rw [hw]
   simp only [envOf, Nat.add_zero]
 
+/-- **C06 (IVFC-wrapped).**  Behind an IVFC header the level-3 image starts at `roundup(0x60 + master hash size, 2^exponent)`;
+    a file whose level-3 header there passes the header checks and whose tables represent `t` is parsed to exactly `t`, with the
+    file data located relative to that offset. -/
+theorem parse_ivfc (lower : Str → Str) (ci : Bool) (file : Bytes) (start : Nat) (t : Tree)
+    (hmagic : (slice (slice file start 0x5C) 0 4 == [0x49, 0x56, 0x46, 0x43]) = true)
+    (hnum : u32 (slice file start 0x5C) 4 = 0x10000) (hbs : ¬ u32 (slice file start 0x5C) 0x4C > 0x3F)
+    (hok : headerOK (slice file (start + roundupNat (0x60 + u32 (slice file start 0x5C) 8) (2 ^ u32 (slice file start 0x5C) 0x4C)) 0x28))
+    (hrep : repDir (envOf lower ci file start (roundupNat (0x60 + u32 (slice file start 0x5C) 8) (2 ^ u32 (slice file start 0x5C) 0x4C))
+                (slice file (start + roundupNat (0x60 + u32 (slice file start 0x5C) 8) (2 ^ u32 (slice file start 0x5C) 0x4C)) 0x28))
+              (slice (envOf lower ci file start (roundupNat (0x60 + u32 (slice file start 0x5C) 8) (2 ^ u32 (slice file start 0x5C) 0x4C))
+                (slice file (start + roundupNat (0x60 + u32 (slice file start 0x5C) 8) (2 ^ u32 (slice file start 0x5C) 0x4C)) 0x28)).dm 0 0x18) t = true)
+    (hd : t.numDirs ≤ (envOf lower ci file start (roundupNat (0x60 + u32 (slice file start 0x5C) 8) (2 ^ u32 (slice file start 0x5C) 0x4C))
+                (slice file (start + roundupNat (0x60 + u32 (slice file start 0x5C) 8) (2 ^ u32 (slice file start 0x5C) 0x4C)) 0x28)).maxDirs)
+    (hf : t.numFiles ≤ (envOf lower ci file start (roundupNat (0x60 + u32 (slice file start 0x5C) 8) (2 ^ u32 (slice file start 0x5C) 0x4C))
+                (slice file (start + roundupNat (0x60 + u32 (slice file start 0x5C) 8) (2 ^ u32 (slice file start 0x5C) 0x4C)) 0x28)).maxFiles)
+    (hdist : Distinct (envOf lower ci file start (roundupNat (0x60 + u32 (slice file start 0x5C) 8) (2 ^ u32 (slice file start 0x5C) 0x4C))
+                (slice file (start + roundupNat (0x60 + u32 (slice file start 0x5C) 8) (2 ^ u32 (slice file start 0x5C) 0x4C)) 0x28)) t) :
+    parse lower ci file start =
+      .ok ⟨.dir [0x52, 0x4F, 0x4F, 0x54]
+            (shapeContents (envOf lower ci file start (roundupNat (0x60 + u32 (slice file start 0x5C) 8) (2 ^ u32 (slice file start 0x5C) 0x4C))
+                (slice file (start + roundupNat (0x60 + u32 (slice file start 0x5C) 8) (2 ^ u32 (slice file start 0x5C) 0x4C)) 0x28)) t),
+           roundupNat (0x60 + u32 (slice file start 0x5C) 8) (2 ^ u32 (slice file start 0x5C) 0x4C),
+           roundupNat (0x60 + u32 (slice file start 0x5C) 8) (2 ^ u32 (slice file start 0x5C) 0x4C) +
+             u32 (slice file (start + roundupNat (0x60 + u32 (slice file start 0x5C) 8) (2 ^ u32 (slice file start 0x5C) 0x4C)) 0x28) 36⟩ := by
+  generalize hoff : roundupNat (0x60 + u32 (slice file start 0x5C) 8) (2 ^ u32 (slice file start 0x5C) 0x4C) = off at *
+  generalize hh : slice file (start + off) 0x28 = h at *
+  obtain ⟨h1, h2, h3, h4, h5, h6, h7⟩ := hok
+  have hw := walk_represented (envOf lower ci file start off h) t
+    (2 * (envOf lower ci file start off h).maxDirs + (envOf lower ci file start off h).maxFiles + 3) hrep
+    (needIter_le t _ _ hd hf) hd hf hdist
+  unfold parse
+  simp only [hmagic, if_true, hnum, ne_eq, not_true_eq_false, if_false, hbs, hoff, hh, h1, h2, h3, h4, h5, h6, h7, or_self]
+  simp only [envOf] at hw
+  have h3' : ¬ (u32 h 4 < 40) := by rw [h2] at h3; exact h3
+  simp only [h3', or_self, if_false]
+  rw [hw]
+  simp only [envOf]
+
 end Romfs
 end Pyctr
